@@ -113,6 +113,11 @@ def props_update(slashed):
         st1 = env['st1']
         tcc1, tpc1, tsf1 = totals(E, st1)
         started = epoch >= deal['start']
+        # result contract relied upon by the batch methods (cron_tick, settle_deal_payments): see market_batch.py
+        # (the informational payment figure of the legacy marked-for-termination branch can be negative when the slash epoch
+        # precedes the deal start; no caller uses it - settle_deal_payments refuses such deals, cron_tick ignores the figure)
+        CONTRACT = [('result contract: the slashed amount is non-negative and a deal that continues is never slashed',
+                     z3.And(slash_r >= 0, z3.Implies(z3.Not(bz(remove)), slash_r == 0)))]
         if not slashed:
             pay_end = zmin(deal['end'], epoch)
             paid = z3.If(started, deal['price'] * (pay_end - pf), 0)
@@ -129,7 +134,7 @@ def props_update(slashed):
             P.append(('market totals move with the deal (fees)', tsf1 == tb['tsf'] - paid))
             P.append(('market totals move with the deal (client collateral)', tcc1 == tb['tcc'] - uc))
             P.append(('market totals move with the deal (provider collateral)', tpc1 == tb['tpc'] - up))
-            return P
+            return P + CONTRACT
         # legacy slashed deal: paid up to the slash epoch, rest refunded, provider collateral burnt in full;
         # before the start epoch the call is a no-op (the deal is processed once it has started)
         se = ds['se']
@@ -143,7 +148,7 @@ def props_update(slashed):
         P.append(('market totals move with the deal (fees)', tsf1 == tb['tsf'] - paid - remaining))
         P.append(('market totals move with the deal (client collateral)', tcc1 == tb['tcc'] - cc))
         P.append(('market totals move with the deal (provider collateral)', tpc1 == tb['tpc'] - pc))
-        return P
+        return P + CONTRACT
     return props
 
 
@@ -279,6 +284,8 @@ def build(tier):
         Obligation('market.process_deal_init_timed_out', run_timed_out, props_timed_out, scenario=make_scenario('process_deal_init_timed_out'),
                    descr='missed activation: provider collateral burnt, client fully refunded', bounds='one deal, one call', max_paths=20000),
     ]
+    from . import market_batch
+    O += market_batch.build_for('C07', tier)
     return O
 
 
